@@ -934,7 +934,12 @@ func GenLayoutForced(r *zsimrt.Run, forced map[string]bool) *Layout {
 		doc.Set("version", Str(g.pick("version", []string{"3.8", "2.4", "3"})))
 	}
 	if g.on("name") {
-		doc.Set("name", g.interp("proj-"+g.word("pname"), c))
+		if g.chance("name-from-project-name", 1, 5) {
+			// the name built from the variable the loader itself sets once the name is known
+			doc.Set("name", Str("${COMPOSE_PROJECT_NAME:-proj-"+g.word("pname")+"}x"))
+		} else {
+			doc.Set("name", g.interp("proj-"+g.word("pname"), c))
+		}
 	}
 	g.topResources(doc, c, "m", root)
 	// anchors
